@@ -32,6 +32,10 @@
 (*                the process / on the format argument fmt[p]; TLC refutes them *)
 (*                (they are here so that the theorems are known to be sensitive *)
 (*                to the one design decision the property rests on).            *)
+(*                "env": the lock CLASS (existence lock / flock), hence the      *)
+(*                exclusion domain, is chosen from the updater's environment     *)
+(*                env[p]: updaters configured differently do not exclude each    *)
+(*                other although they use the same lock path.  Refuted.          *)
 (*                "steal": key = position, but a waiter whose wait has lasted   *)
 (*                "too long" unlinks the lock file and takes the lock itself     *)
 (*                (finite timeout + takeover).  Time is not modelled: a holder   *)
@@ -68,6 +72,7 @@ CurPos(p)  == PosOf(p, upd[p])
 KeyTag(p)  == CASE cfg.keymode \in {"pos", "steal"} -> 0
                 [] cfg.keymode = "proc" -> p
                 [] cfg.keymode = "fmt"  -> cfg.fmt[p]
+                [] cfg.keymode = "env"  -> cfg.env[p]
 KeyOf(p)   == <<CurPos(p), KeyTag(p)>>
 Keys       == Poss \X (0..MaxP)
 
